@@ -78,7 +78,18 @@ def run(res, ctx):
         # the visitor: whatever the first does to the process must not change what the second yields (seeded change C08-m4 raised the limit for good)
         p = os.path.join(root, "f0.b_deep.py"); open(p, "w").write("x = " + " + ".join("v%d" % i for i in range(2000)) + "\n"); paths.append(p)
         p = os.path.join(root, "f0.c_sql.py"); open(p, "w").write("q = 'SELECT * FROM t WHERE a = ' + " + " + ".join("v%d" % i for i in range(700)) + "\n"); paths.append(p)
+        # a small file that the same checks fire on, sorting AFTER the deep ones: a check that raised on an earlier file must still run on later ones
+        # (seeded change C08-m6 removed a check from the shared test list once it had raised)
+        p = os.path.join(root, "f0.d_after.py"); open(p, "w").write("import tarfile\nq = 'SELECT * FROM t WHERE a = ' + v\ntarfile.open(n).extractall()\nt = tarfile.open(m)\nt.extractall(members=pick(t))\n"); paths.append(p)
+        p = os.path.join(root, "f0.c_tar.py"); open(p, "w").write("import tarfile\nt = tarfile.open(n)\nt.extractall(dest, members=" + " + ".join("p%d" % i for i in range(700)) + ")\n"); paths.append(p)
         paths.sort()
+        # two names for one file (a symbolic link next to its target): each discovered name is scanned and reported under that name, whatever the
+        # directory enumeration order (seeded change C08-m5 kept only the first name os.walk yields)
+        symdir = os.path.join(scratch.root, "sym"); os.makedirs(os.path.join(symdir, "pkg"))
+        open(os.path.join(symdir, "pkg", "serializer.py"), "w").write("import pickle\npickle.loads(b)\n")
+        os.symlink("serializer.py", os.path.join(symdir, "pkg", "codec.py"))
+        os.symlink("serializer.py", os.path.join(symdir, "pkg", "zcodec.py"))
+        open(os.path.join(symdir, "run.py"), "w").write("import subprocess\n")
 
         def scan(ps):
             import linecache
@@ -117,6 +128,24 @@ def run(res, ctx):
             sub = rng.sample(paths, rng.randint(2, len(paths)))
             rng.shuffle(sub)
             trials.append((f"subset{k}", sub))
+        # recursive scan of the symlink tree vs each of its names alone
+        def scan_dir(dd):
+            import linecache
+            linecache.clearcache()
+            m = b_manager.BanditManager(b_config.BanditConfig(), "file")
+            m.discover_files([dd], True); m.run_tests(); C.take_log()
+            out = {}
+            for r in m.results:
+                out.setdefault(os.path.relpath(r.fname, dd), []).append(C.finding_tuple(r))
+            return {k: sorted(v) for k, v in out.items()}, sorted(os.path.relpath(f, dd) for f in m.files_list)
+        got_dir, listed = scan_dir(symdir)
+        for rel in ("pkg/serializer.py", "pkg/codec.py", "pkg/zcodec.py", "run.py"):
+            one = scan([os.path.join(symdir, rel)])
+            want = one.get(os.path.basename(rel), [])
+            res.case(("symlink", rel), True)
+            if [x[:6] for x in want] != [tuple(x) if not isinstance(x, tuple) else x for x in got_dir.get(rel, [])] and [list(x[:6]) for x in want] != [list(x) for x in got_dir.get(rel, [])]:
+                res.violation("a file reachable under several names is not scanned under each discovered name (or its findings depend on the other names)",
+                              {"name": rel, "alone": [list(x[:6]) for x in want], "in_directory_scan": [list(x) for x in got_dir.get(rel, [])], "files_list": listed})
         trials += [("alone-again:" + os.path.basename(p), [p]) for p in paths]      # nothing scanned so far may have changed what a file yields
         for label, ps in trials:
             got = scan(ps)
